@@ -77,21 +77,22 @@ func (r *Result) Header() string {
 }
 
 type gen struct {
-	t       *rapid.T
-	s       *bs.Sim
-	opt     Options
-	res     *Result
-	rng     *rand.Rand
-	byz     []int
-	honest  []int
-	bumps   int
-	segs    int
-	classes map[string]bool
-	dMode   string // default behaviour of Byzantine engines outside scripted rounds: "silent" | "honestlike"
-	noise   int    // 0 none, 1 light, 2 heavy (random redelivery / crafted replay)
-	dup     bool
-	pl      plan
-	stash   []*lib.QuorumCertificate // certificates only the adversary holds (formed from votes, never sent)
+	t        *rapid.T
+	s        *bs.Sim
+	opt      Options
+	res      *Result
+	rng      *rand.Rand
+	byz      []int
+	honest   []int
+	bumps    int
+	segs     int
+	classes  map[string]bool
+	dMode    string // default behaviour of Byzantine engines outside scripted rounds: "silent" | "honestlike"
+	noise    int    // 0 none, 1 light, 2 heavy (random redelivery / crafted replay)
+	dup      bool
+	pl       plan
+	stash    []*lib.QuorumCertificate // certificates only the adversary holds (formed from votes, never sent)
+	withheld *bs.Proposal             // the proposal of the last withheld certificate
 }
 
 func (g *gen) class(c string) { g.classes[c] = true }
@@ -248,6 +249,7 @@ type plan struct {
 	r1, r2, r3 uint64
 	rootB      uint64
 	ok         bool
+	byzLock    bool // F3: the lock round is led by the Byzantine validator too (same block as the withheld certificate, other results)
 }
 
 func byzSet(cfg bs.Config) (b, h []int) {
@@ -332,6 +334,7 @@ func RunOn(t *rapid.T, opt Options, cfg bs.Config, mode string, g1, g2 []int) *R
 			pl.k1, pl.k2 = rapid.IntRange(0, 2).Draw(t, "k1"), rapid.IntRange(0, 1).Draw(t, "k2")
 		}
 		pl.k3 = rapid.IntRange(0, 1).Draw(t, "k3")
+		pl.byzLock = rapid.IntRange(0, 2).Draw(t, "byzLock") == 0
 		pl.r1 = uint64(pl.k1)
 		if pl.bump {
 			pl.rootB, pl.r2 = cfg.RootHeight+1, uint64(pl.k2)
@@ -343,9 +346,16 @@ func RunOn(t *rapid.T, opt Options, cfg bs.Config, mode string, g1, g2 []int) *R
 			if !anyByzLeadable(s, cfg.RootHeight, pl.r1, hon) {
 				return false
 			}
-			l, ok := honestLeadable(s, pl.rootB, pl.r2, hon)
-			if !ok {
-				return false
+			l := hon[0] // the replica assumed to have committed (and left) when the re-proposal happens
+			if pl.byzLock {
+				if !anyByzLeadable(s, pl.rootB, pl.r2, hon) {
+					return false
+				}
+			} else {
+				var ok bool
+				if l, ok = honestLeadable(s, pl.rootB, pl.r2, hon); !ok {
+					return false
+				}
 			}
 			var rest []int
 			for _, i := range hon {
@@ -673,7 +683,7 @@ func (g *gen) craftedReplay(nr *rand.Rand) {
 		if len(cert.BlockHash) == 0 {
 			return
 		}
-		p := s.BlockOf(cert.BlockHash)
+		p := s.FindProposal(cert.BlockHash, cert.ResultsHash)
 		if p == nil {
 			return
 		}
@@ -685,7 +695,7 @@ func (g *gen) craftedReplay(nr *rand.Rand) {
 		if len(cert.BlockHash) == 0 {
 			return
 		}
-		p := s.BlockOf(cert.BlockHash)
+		p := s.FindProposal(cert.BlockHash, cert.ResultsHash)
 		hq := bs.CloneQC(cert)
 		leader := at[nr.IntN(len(at))]
 		pay := s.ElectionVotePayload(root, round, leader)
@@ -717,7 +727,7 @@ func (g *gen) craftedReplay(nr *rand.Rand) {
 		prop := s.NewProposal(d, fmt.Sprintf("replayprop/%d", s.Step), root)
 		var hq *lib.QuorumCertificate
 		if len(cert.BlockHash) > 0 && nr.IntN(2) == 0 {
-			if p := s.BlockOf(cert.BlockHash); p != nil {
+			if p := s.FindProposal(cert.BlockHash, cert.ResultsHash); p != nil {
 				prop, hq = p, cert
 			}
 		}
@@ -1056,7 +1066,12 @@ func (g *gen) byzRound(d int, variant string) *bs.ByzLeader {
 	desc := variant
 	switch variant {
 	case "withhold": // collect a +2/3 PROPOSE_VOTE certificate, withhold PRECOMMIT from everybody or from all but a subset
-		bl.Props = []*bs.Proposal{s.NewProposal(d, fmt.Sprintf("Y/%d/%d", root, round), root)}
+		wp := s.NewProposal(d, fmt.Sprintf("Y/%d/%d", root, round), root)
+		if rapid.Bool().Draw(g.t, "withheldResultsVar") {
+			wp = s.WithOtherResults(wp, d, fmt.Sprintf("w/%d/%d", root, round))
+		}
+		g.withheld = wp
+		bl.Props = []*bs.Proposal{wp}
 		bl.Targets = [][]int{at}
 		if rapid.IntRange(0, 2).Draw(g.t, "withholdAll") > 0 {
 			bl.StopBefore = bs.Precommit
@@ -1080,9 +1095,41 @@ func (g *gen) byzRound(d int, variant string) *bs.ByzLeader {
 				}
 			}
 		}
-		bl.Props = []*bs.Proposal{s.NewProposal(d, fmt.Sprintf("X/%d/%d", root, round), root), s.NewProposal(d, fmt.Sprintf("Y/%d/%d", root, round), root)}
+		px := s.NewProposal(d, fmt.Sprintf("X/%d/%d", root, round), root)
+		py := s.NewProposal(d, fmt.Sprintf("Y/%d/%d", root, round), root)
+		differ := rapid.SampledFrom([]string{"block", "results", "block+results"}).Draw(g.t, "eqDiffer")
+		switch differ {
+		case "results": // the same block with two different certificate results
+			py = s.WithOtherResults(px, d, fmt.Sprintf("eq/%d/%d", root, round))
+		case "block+results":
+			py = s.WithOtherResults(py, d, fmt.Sprintf("eq/%d/%d", root, round))
+		}
+		g.class("equivocation-differs-in:" + differ)
+		bl.Props = []*bs.Proposal{px, py}
 		bl.Targets = [][]int{t1, t2}
-		desc += fmt.Sprintf("(%v|%v)", t1, t2)
+		desc += fmt.Sprintf("(%s:%v|%v)", differ, t1, t2)
+	case "lock-same-block":
+		// the Byzantine leader proposes the block of the certificate it withheld, with OTHER certificate results, lets a
+		// drawn set lock (enough for a COMMIT) and lets only some commit
+		base := g.withheld
+		if base == nil {
+			base = s.NewProposal(d, fmt.Sprintf("Y/%d/%d", root, round), root)
+		}
+		p1 := s.WithOtherResults(base, d, fmt.Sprintf("lock/%d/%d", root, round))
+		lockers := at
+		if rapid.IntRange(0, 3).Draw(g.t, "byzLockAll") == 0 {
+			lockers = g.drawSubset(at, "byzLockers", false)
+		}
+		committers := []int{lockers[rapid.IntRange(0, len(lockers)-1).Draw(g.t, "byzCommitter")]}
+		if rapid.IntRange(0, 3).Draw(g.t, "moreByzCommitters") == 0 {
+			committers = g.drawSubset(lockers, "byzCommitters", false)
+		}
+		bl.Props = []*bs.Proposal{p1}
+		bl.Targets = [][]int{at}
+		bl.PrecommitTo = [][]int{lockers}
+		bl.CommitTo = [][]int{committers}
+		desc += fmt.Sprintf("(block=%s results=%s precommit->%v commit->%v)", bs.Short(p1.BlockHash), bs.Short(p1.ResultsHash), lockers, committers)
+		g.class("byz:same-block-other-results-locked")
 	case "stale", "fresh", "partialhqc", "wrongphase":
 		prop := s.NewProposal(d, fmt.Sprintf("Z/%d/%d", root, round), root)
 		var hq *lib.QuorumCertificate
@@ -1095,11 +1142,11 @@ func (g *gen) byzRound(d int, variant string) *bs.ByzLeader {
 				all = g.stash
 			}
 			for _, c := range all {
-				if c.Header.Phase != bs.ProposeVote || s.CertPower(c) < s.VS.MinimumMaj23 || s.BlockOf(c.BlockHash) == nil {
+				if c.Header.Phase != bs.ProposeVote || s.CertPower(c) < s.VS.MinimumMaj23 || s.FindProposal(c.BlockHash, c.ResultsHash) == nil {
 					continue
 				}
 				for _, i := range at {
-					if h := s.R[i].B.HighQC; h != nil && string(h.BlockHash) != string(c.BlockHash) {
+					if h := s.R[i].B.HighQC; h != nil && (string(h.BlockHash) != string(c.BlockHash) || string(h.ResultsHash) != string(c.ResultsHash)) {
 						cands = append(cands, c)
 						break
 					}
@@ -1107,15 +1154,15 @@ func (g *gen) byzRound(d int, variant string) *bs.ByzLeader {
 			}
 			if len(cands) == 0 {
 				for _, c := range all {
-					if c.Header.Phase == bs.ProposeVote && s.CertPower(c) >= s.VS.MinimumMaj23 && s.BlockOf(c.BlockHash) != nil {
+					if c.Header.Phase == bs.ProposeVote && s.CertPower(c) >= s.VS.MinimumMaj23 && s.FindProposal(c.BlockHash, c.ResultsHash) != nil {
 						cands = append(cands, c)
 					}
 				}
 			}
 			if len(cands) > 0 {
 				hq = cands[rapid.IntRange(0, len(cands)-1).Draw(g.t, "staleCert")]
-				prop = s.BlockOf(hq.BlockHash)
-				desc += fmt.Sprintf("(hqc=%d.%d:%s)", hq.Header.RootHeight, hq.Header.Round, bs.Short(hq.BlockHash))
+				prop = s.FindProposal(hq.BlockHash, hq.ResultsHash)
+				desc += fmt.Sprintf("(hqc=%d.%d:%s/%s)", hq.Header.RootHeight, hq.Header.Round, bs.Short(hq.BlockHash), bs.Short(hq.ResultsHash))
 				g.class("byz:stale-cert-reproposed")
 			} else {
 				desc += "(no-cert)"
@@ -1227,7 +1274,11 @@ func (g *gen) famWithheld() {
 	if g.done() {
 		return
 	}
-	g.lockRound(rapid.IntRange(0, 5).Draw(g.t, "allLock") > 0)
+	if d2, ok2 := g.leadable(); g.pl.byzLock && ok2 {
+		g.byzRound(d2, "lock-same-block")
+	} else {
+		g.lockRound(rapid.IntRange(0, 5).Draw(g.t, "allLock") > 0)
+	}
 	if rapid.IntRange(0, 7).Draw(g.t, "bumpAfterLock") == 0 {
 		g.bump()
 	}
